@@ -710,6 +710,98 @@ def check_lookup_balance(prop, tier, repo, verif):
     return res
 
 
+def check_stepping_full(prop, tier, repo, verif):
+    t0 = time.time()
+    res = {'unit': 'bounded:determinism_stepping_full', 'engine': 'bounded run of the real assembler + processor incl. execute_iter (tools/stepfull, adapted from the third C14 sub-agent\'s demo; release build)', 'status': 'ok',
+           'failures': [], 'undecided': [], 'bounded': True,
+           'bound': '461 generated programs (straight-line code of 12..15432 cycles so that the trace components are reallocated 0..6 times, loops, calls / syscalls / dyncalls with memory and locals in several contexts, addresses >= 2^31, same-address accesses in consecutive cycles, stacks deeper than 16 across calls, every decorator and most advice injectors at every position of a span, clk at many positions, stdlib u64 / hashing procedures) x 88 configurations (11 expected-cycle hints 64..2^16 x tracing on / off x release / debug assembly x no-op / recording host): identical outputs, trace length and main segment cell by cell, decorator-free twin gives the identical trace, two runs agree; stepping with execute_iter forward, backward and in 200 seeded random next / back sequences: op, top 16 + depth, fmp, ctx and the memory of the current context at every visited clock against row t of the trace and a memory image replayed from the memory chiplet rows; every clk instruction pushes its clock (about 7 million comparisons)'}
+    binp, err = build_tool(repo, verif, 'stepfull', release=True)
+    if binp is None:
+        res['status'] = 'undecided'
+        res['undecided'].append('stepfull does not build against the current tree: ' + err)
+        return res
+    try:
+        p = subprocess.run([binp], stdout=subprocess.PIPE, stderr=subprocess.PIPE, text=True, timeout=7200)
+    except subprocess.TimeoutExpired:
+        res['status'] = 'undecided'
+        res['undecided'].append('stepfull timed out')
+        return res
+    m = re.search(r'SUMMARY programs=(\d+) checks=(\d+) failures=(\d+) probe_failures=(\d+) generator_errors=(\d+)', p.stdout)
+    if not m:
+        res['status'] = 'undecided'
+        res['undecided'].append('stepfull gave no summary (panic?): ' + (p.stdout + p.stderr)[-500:])
+        return res
+    if int(m.group(5)):
+        res['undecided'].append('stepfull: %s generated programs do not assemble' % m.group(5))
+    seen = set()
+    for ln in p.stdout.split('\n'):
+        mm = re.match(r'FAILCASE (\S+) :: (.*?) :: (.*?) :: (.*)', ln)
+        if not mm:
+            continue
+        kind, name, what, detail = mm.groups()
+        fam = name.split('/')[0]
+        key = '%s:%s:%s' % (kind, fam, re.sub(r'[^A-Za-z0-9]+', '-', re.sub(r'\(.*?\)', '', what)).strip('-')[:60])
+        if key in seen or len(seen) > 30:
+            continue
+        seen.add(key)
+        res['failures'].append({'obligation': '%s/bounded/determinism_stepping_full#%s' % (prop, key), 'message': '[%s] %s: %s' % (name, what, detail[:300]),
+                                'rendered': ln[:1800], 'origins': ['processor/src/debug.rs', 'processor/src/lib.rs', 'processor/src/system/mod.rs', 'processor/src/stack', 'processor/src/chiplets/memory', 'assembly/src/assembler/span_builder.rs'],
+                                'failing_input': {'program': name, 'check': what[:200], 'detail': detail[:1500], 'cmd': '.cache/target/release/stepfull %s' % name}})
+    if int(m.group(3)) and not [f for f in res['failures'] if '#fail:' in f['obligation']]:
+        res['failures'].append({'obligation': '%s/bounded/determinism_stepping_full#failures' % prop, 'message': '%s failing checks' % m.group(3), 'rendered': p.stdout[-800:], 'origins': []})
+    if res['failures']:
+        res['status'] = 'fail'
+    elif res['undecided']:
+        res['status'] = 'undecided'
+    res['wall_s'] = round(time.time() - t0, 1)
+    res['checker_cmd'] = 'tools/stepfull (built against the current tree): %s programs, %s comparisons' % (m.group(1), m.group(2))
+    return res
+
+
+def check_decoder_model_full(prop, tier, repo, verif):
+    t0 = time.time()
+    res = {'unit': 'bounded:decoder_model_full', 'engine': 'bounded run of the real processor against an independent decoder model written from docs/src/design/decoder/{main,constraints}.md and programs.md (tools/decfull, adapted from the fourth C13 sub-agent\'s demo; release build)', 'status': 'ok',
+           'failures': [], 'undecided': [], 'bounded': True,
+           'bound': '112190 programs, about 15 million decoder rows: 42 assembled from MASM; spans with every PUSH-immediate mask up to length 10, structured / random masks for lengths 11..80, batch-boundary sweeps (7-group non-last batches, an immediate in the last slot of a batch, spans ending exactly on a batch boundary); control-flow shapes to depth 3 (incl. dyncall) under 6 decision policies and to depth 4 (span / join / split / loop / call / syscall / dyn) under 2; 4000 seeded random programs; compared per row: operation and the 7 op bits (+ extra columns), block address, h0..h7 on block-start / END / RESPAN / HALT rows (child hashes, block hash, is_loop_body / is_loop / is_call / is_syscall), h0 h1 on operation rows, in_span, group_count, op_index, op-batch flags, the op reported per clock by VmStateIterator and the stack outputs'}
+    binp, err = build_tool(repo, verif, 'decfull', release=True)
+    if binp is None:
+        res['status'] = 'undecided'
+        res['undecided'].append('decfull does not build against the current tree: ' + err)
+        return res
+    try:
+        p = subprocess.run([binp], stdout=subprocess.PIPE, stderr=subprocess.PIPE, text=True, timeout=3600)
+    except subprocess.TimeoutExpired:
+        res['status'] = 'undecided'
+        res['undecided'].append('decfull timed out')
+        return res
+    m = re.search(r'SUMMARY cases=(\d+) compared=(\d+) rows=(\d+) failures=(\d+) dyn_cells=(\d+) end_flag_cells=(\d+)', p.stdout)
+    if not m:
+        res['status'] = 'undecided'
+        res['undecided'].append('decfull gave no summary (panic?): ' + (p.stdout + p.stderr)[-500:])
+        return res
+    seen = set()
+    for ln in p.stdout.split('\n'):
+        mm = re.match(r'FAILCASE (\S+) :: (.*?) :: (.*?) :: (.*)', ln)
+        if not mm:
+            continue
+        fam, name, msg, rest = mm.groups()
+        col = re.search(r'column (\w+)|expected operation `(\w+)`|(stack outputs|VmStateIterator|trace length)', msg)
+        key = '%s' % re.sub(r'[^A-Za-z0-9]+', '-', (col.group(0) if col else msg[:50])).strip('-')
+        if key in seen or len(seen) > 30:
+            continue
+        seen.add(key)
+        res['failures'].append({'obligation': '%s/bounded/decoder_model_full#%s' % (prop, key), 'message': 'decoder trace deviates from the documented model: [%s] %s: %s' % (fam, name[:200], msg[:300]),
+                                'rendered': ln[:1800], 'origins': ['processor/src/lib.rs', 'processor/src/decoder/mod.rs', 'processor/src/decoder/trace.rs', 'processor/src/decoder/block_stack.rs', 'core/src/program/blocks/span_block.rs'],
+                                'failing_input': {'family': fam, 'case': name[:300], 'deviation': msg[:400], 'program_and_inputs': rest[:1600], 'cmd': '.cache/target/release/decfull'}})
+    if int(m.group(4)) and not res['failures']:
+        res['failures'].append({'obligation': '%s/bounded/decoder_model_full#failures' % prop, 'message': '%s programs deviate' % m.group(4), 'rendered': p.stdout[-800:], 'origins': []})
+    if res['failures']:
+        res['status'] = 'fail'
+    res['wall_s'] = round(time.time() - t0, 1)
+    res['checker_cmd'] = 'tools/decfull (built against the current tree): %s programs compared, %s decoder rows; %s DYN-row cells carry the callee hash where the docs say zeros (F65, noted under C12; outside C13 as stated: the operation stream, nesting, group counters and the final hash are not affected); %s END-row block-type flag cells (h4..h7) deviate (noted, not part of C13 as stated)' % (m.group(2), m.group(3), m.group(5), m.group(6))
+    return res
+
+
 def check_hash_invariance(prop, tier, repo, verif):
     t0 = time.time()
     res = {'unit': 'bounded:hash_invariance', 'engine': 'bounded run of the real assembler and processor (tools/hashprobe)', 'status': 'ok',
